@@ -43,6 +43,7 @@ func main() {
 }
 
 func genCases(g *fw.GenCtx) {
+	g.Emit("notset", ccase{})
 	for k := 0; k < g.Pick(150, 6000); k++ {
 		g.Emit("trace", ccase{Seed: g.Rand.Int63(), N: 20})
 	}
@@ -389,6 +390,8 @@ func run(c fw.Case) fw.Outcome {
 		runDual(&oc, cc)
 	case "acl":
 		runACL(&oc, cc)
+	case "notset":
+		runNotSet(&oc)
 	}
 	return oc
 }
